@@ -50,7 +50,11 @@ Definition round2 (q : Q) : Z := round_he (q * (100 # 1)).      (* hundredths *)
 Definition of_cents (z : Z) : Q := z # 100.
 Definition round2q (q : Q) : Q := of_cents (round2 q).          (* round(q, 2) *)
 
-Fixpoint qsum (l : list Q) : Q := match l with [] => 0%Q | x :: t => (x + qsum t)%Q end.
+(* addition that keeps a common denominator (the harness writes every array over one power of two, so that sums
+   stay small; equal to Qplus as a rational, see Proofs/Response.v qadd_cd_ok) *)
+Definition qadd_cd (a b : Q) : Q :=
+  if Pos.eqb (Qden a) (Qden b) then (Qnum a + Qnum b) # (Qden a) else (a + b)%Q.
+Fixpoint qsum (l : list Q) : Q := match l with [] => 0%Q | x :: t => qadd_cd x (qsum t) end.
 Definition qmean (l : list Q) : option Q :=
   match l with [] => None | _ => Some (qsum l / inject_Z (Z.of_nat (length l)))%Q end.
 Definition qmin2 (a b : Q) : Q := if Qle_bool a b then a else b.
